@@ -1,0 +1,25 @@
+//go:build verif
+
+package grpc
+
+import (
+	i_api "github.com/resonatehq/resonate/internal/api"
+	"github.com/resonatehq/resonate/internal/app/subsystems/api"
+	"github.com/resonatehq/resonate/internal/app/subsystems/api/grpc/pb"
+)
+
+// Services is the set of service implementations registered by New.
+type Services interface {
+	pb.PromisesServer
+	pb.CallbacksServer
+	pb.SubscriptionsServer
+	pb.SchedulesServer
+	pb.LocksServer
+	pb.TasksServer
+}
+
+// NewServices returns the service implementations exactly as New registers
+// them, without a listener or a grpc.Server (verification harness).
+func NewServices(a i_api.API) Services {
+	return &server{api: api.New(a, "grpc")}
+}
